@@ -49,6 +49,13 @@ def sweep(tier, seed):
             for k in (2, 3, 0.5):
                 ok, d = N.catalogue_call("power", [a(), k])
                 rec("C10.native.transform[power]", ("power", dtype, k), ok, d)
+            for k in (2, 3):
+                ok, d = N.catalogue_call("power", [a(), np.array(k)])
+                rec("C10.native.transform[power,ndarray_exponent]", ("power", dtype, "nd", k), ok, d)
+            for f in ("maximum", "add"):
+                # a plain number or ndarray in front of the Array: the result keeps the Array's unit
+                ok, d = N.catalogue_call(f, [0.0, a()])
+                rec("C10.native.same[%s,number_first]" % f, (f, dtype, "number_first"), ok, d)
             for f in ("isfinite", "isnan", "isinf"):
                 ok, d = N.catalogue_call(f, [a()])
                 rec("C10.native.predicate[%s]" % f, (f, dtype), ok, d)
